@@ -1,28 +1,22 @@
-"""C35 parameters == inlined literals: every generated read query (the C01 families) is executed with its literal slots
-inlined and, once per position class that holds a literal (WHERE, RETURN, WITH, inline pattern properties, UNWIND
+"""C35 parameters == inlined literals: every generated read query (the C01 families and walks) is executed with its literal
+slots inlined and, once per position class that holds a literal (WHERE, RETURN, WITH, inline pattern properties, UNWIND
 operand, whole list / list elements, SKIP/LIMIT, all together), with those slots as $parameters through
 QueryExecutor::with_params.  CypherRead_Trace.T_QueryP: a parameterised execution is refused, or its answer is one the
-reference semantics (CypherRead.tla, evaluated by TLC) allows and equals the inlined answer."""
+reference semantics (CypherRead.tla, evaluated by TLC) allows and is the same bag as the inlined answer."""
 from .qread_common import *
-from .c01 import families
+from .c01 import generate, replay
 
 
 def run(ctx):
-    total = []
-    for f in families(ctx, "c35"):
-        scripts = ctx.tlc_gen("MC_CypherRead", gen_cfg(**f), "gen-" + f["fam"], workers=6, timeout=3000)
-        total.append((f["fam"], batch(scripts)))
-    ctx.assume("same graph / value bounds as C01; parameter values are the literal values of the generated query "
-               "(Int, half-integer Float, String, Boolean, null, lists of these)",
-               "reads only; a parameterised execution that raises any error is a refusal (allowed by the statement)")
-    npar = nans = 0
-    for fam, scripts in total:
-        sp = ctx.write_scripts(fam, scripts)
-        tr = ctx.run_harness("cyread", sp, name=fam, args=["mode=c35"])
-        a, b = count_params(tr)
-        npar += a
-        nans += b
-        ctx.validate("CypherRead_Trace", trace_cfg(ctx), tr, name=fam, corrupt=corrupt_pout)
+    scripts = generate(ctx, design=False)
+    ctx.assume("same graph / value bounds and query families as C01; parameter values are the literal values of the generated "
+               "query (Int, half-integer Float, String, Boolean, null, lists of these)",
+               "reads only; a parameterised execution that raises any error (including a parse error for SKIP $p / LIMIT $p) is a "
+               "refusal, which the statement allows; SET with parameters belongs to the write-statement checks")
+    tr = replay(ctx, scripts, "c35", name="params")
+    npar, nans, by = count_params(tr)
     ctx.cov["parameterised_executions"] = npar
     ctx.cov["parameterised_answered"] = nans
-    ctx.log("parameterised executions: %d, answered (not refused): %d" % (npar, nans))
+    ctx.cov["parameterised_by_position"] = by
+    ctx.log("parameterised executions: %d, answered (not refused): %d; by position %s" % (npar, nans, by))
+    ctx.validate("CypherRead_Trace", trace_cfg(ctx), tr, name="params", corrupt=corrupt_pout, jobs=int(os.environ.get("VERIF_JOBS", "6")))
